@@ -22,6 +22,8 @@ CONSTANTS
   EagerNet = FALSE
   DelayValues = {}
   VaryAll = TRUE
+  MaxBehind <- TraceMaxBehind
+  Catchup <- TraceCatchup
   Granular = TRUE
 INVARIANT SysReport
 POSTCONDITION SysAccepted
